@@ -110,6 +110,9 @@ func (m *pathParamMatcher) Matches(request *heimdall.Request, keys, values []str
 				return errorchain.NewWithMessage(ErrRequestPathMismatch,
 					"request path contains encoded slashes which are not allowed")
 			}
+
+			// no encoded slash present: path_params see the decoded value, as the pipeline does
+			value, _ = url.PathUnescape(value)
 		case config.EncodedSlashesOn:
 			value, _ = url.PathUnescape(value)
 		default:
